@@ -40,46 +40,12 @@ NETWORK_MEMBERS = {
 }
 
 
-def loop_env(mod, node, fn, roots):
-    """Map loop variables enclosing `node` to id-path prefixes. roots: names standing for <obj>."""
-    env = {r: "<obj>" for r in roots}
-    chain = []
-    n = mod.parent.get(node)
-    while n is not None and n is not fn:
-        if isinstance(n, ast.For) and isinstance(n.target, ast.Name):
-            chain.append(n)
-        n = mod.parent.get(n)
-    for f in reversed(chain):
-        p = path_of(f.iter, env)
-        if p is None:
-            continue
-        env[f.target.id] = "<obj>" if p == "<obj>" else p + "[*]"
-    return env
 
 
-def path_of(expr, env):
-    ch = attr_chain(expr)
-    if not ch:
-        return None
-    if ch[0] not in env:
-        return None
-    return ".".join([env[ch[0]]] + ch[1:])
 
 
-def reserve_calls(fn):
-    out = []
-    for n in walk_no_nested(fn):
-        if isinstance(n, ast.Call) and isinstance(n.func, ast.Attribute) and n.func.attr.startswith("_mark_object_id") and norm(n.func.value) == "self":
-            out.append(n)
-    return out
 
 
-def release_calls(fn):
-    out = []
-    for n in walk_no_nested(fn):
-        if isinstance(n, ast.Call) and isinstance(n.func, ast.Attribute) and n.func.attr in ("remove", "discard", "difference_update") and norm(n.func.value) == "self._id_set":
-            out.append(n)
-    return out
 
 
 def inside(mod, node, anc):
@@ -91,169 +57,21 @@ def inside(mod, node, anc):
     return False
 
 
-def in_body(mod, node, ifnode, which):
-    lst = getattr(ifnode, which)
-    return any(inside(mod, node, s) for s in lst)
 
 
-def reserved_paths(mod, fn, nodes, roots):
-    """Id paths reserved/released by the given call nodes.  A list argument built by the helper idiom
-    (ids = [a.x] + [b.y for b in a.bs]) is flattened."""
-    paths = []
-    for c in nodes:
-        if not c.args:
-            continue
-        env = loop_env(mod, c, fn, roots)
-        a = c.args[0]
-        if isinstance(a, ast.Name) and a.id not in env:
-            # loop variable over the ids an id-collector helper yields
-            lp = mod.parent.get(c)
-            while lp is not None and lp is not fn and not (isinstance(lp, ast.For) and isinstance(lp.target, ast.Name) and lp.target.id == a.id):
-                lp = mod.parent.get(lp)
-            if isinstance(lp, ast.For) and isinstance(lp.iter, ast.Call):
-                paths += expr_paths(mod, fn, lp.iter, loop_env(mod, lp, fn, roots), lp)
-                continue
-        paths += expr_paths(mod, fn, a, env, c)
-    return paths
 
 
-def expr_paths(mod, fn, e, env, at):
-    if isinstance(e, ast.List):
-        out = []
-        for x in e.elts:
-            out += expr_paths(mod, fn, x, env, at)
-        return out
-    if isinstance(e, ast.BinOp) and isinstance(e.op, ast.Add):
-        return expr_paths(mod, fn, e.left, env, at) + expr_paths(mod, fn, e.right, env, at)
-    if isinstance(e, (ast.ListComp, ast.GeneratorExp, ast.SetComp)):
-        env2 = dict(env)
-        for g in e.generators:
-            p = path_of(g.iter, env2)
-            if p is not None and isinstance(g.target, ast.Name):
-                env2[g.target.id] = "<obj>" if p == "<obj>" else p + "[*]"
-        return expr_paths(mod, fn, e.elt, env2, at)
-    if isinstance(e, ast.Name) and e.id not in env:
-        # local list variable: union of everything assigned / appended / extended to it in the same function
-        out = []
-        for n in walk_no_nested(fn):
-            if isinstance(n, (ast.Assign, ast.AugAssign)):
-                tg = n.targets if isinstance(n, ast.Assign) else [n.target]
-                if any(isinstance(t, ast.Name) and t.id == e.id for t in tg):
-                    out += expr_paths(mod, fn, n.value, loop_env(mod, n, fn, [r for r, v in env.items() if v == "<obj>"]), n)
-            elif isinstance(n, ast.Call) and isinstance(n.func, ast.Attribute) and n.func.attr in ("append", "extend", "add", "update") and norm(n.func.value) == e.id and n.args:
-                out += expr_paths(mod, fn, n.args[0], loop_env(mod, n, fn, [r for r, v in env.items() if v == "<obj>"]), n)
-        return out
-    if isinstance(e, ast.Call) and call_name(e) in ("list", "set", "tuple", "sorted") and e.args:
-        return expr_paths(mod, fn, e.args[0], env, at)
-    if isinstance(e, ast.Call) and isinstance(e.func, ast.Attribute) and norm(e.func.value) in ("self", "Scenario", "cls") and len(e.args) == 1 and not e.keywords:
-        # id collector helper: paths of its return expression relative to its parameter
-        helper = HELPERS.get(e.func.attr)
-        if helper is not None:
-            prm = [a.arg for a in helper.args.args if a.arg not in ("self", "cls")]
-            base = path_of(e.args[0], env)
-            if len(prm) == 1 and base is not None:
-                out = []
-                for r in walk_no_nested(helper):
-                    val = None
-                    if isinstance(r, ast.Return) and r.value is not None:
-                        val = r.value
-                    elif isinstance(r, ast.Expr) and isinstance(r.value, (ast.Yield, ast.YieldFrom)) and r.value.value is not None:
-                        val = r.value.value
-                    if val is None:
-                        continue
-                    henv = loop_env(mod, r, helper, [prm[0]])
-                    henv = {k: v.replace("<obj>", base, 1) for k, v in henv.items()}
-                    out += expr_paths(mod, helper, val, henv, r)
-                return out
-    p = path_of(e, env)
-    return [p] if p is not None else ["?" + norm(e)]
 
 
 HELPERS = {}
 
 
-def _stmt_of(mod, node):
-    while node is not None and not isinstance(node, ast.stmt):
-        node = mod.parent.get(node)
-    return node
 
 
-def tail_after(mod, fn, stmt, calls):
-    """release calls that every execution passing `stmt` goes on to reach: later siblings (not under a further
-    condition) of stmt or of the statements enclosing it, as long as the enclosing block does not leave first"""
-    out = []
-    cur = stmt
-    while cur is not None and cur is not fn:
-        par = mod.parent.get(cur)
-        for field in ("body", "orelse", "finalbody"):
-            lst = getattr(par, field, None)
-            if isinstance(lst, list) and cur in lst:
-                for later in lst[lst.index(cur) + 1:]:
-                    if isinstance(later, (ast.Return, ast.Raise, ast.Continue, ast.Break)):
-                        return out
-                    for c in calls:
-                        st = _stmt_of(mod, c)
-                        if st is later or (isinstance(later, ast.For) and any(st is x for x in later.body)):
-                            out.append(c)
-        if isinstance(par, (ast.For, ast.While)):
-            break
-        cur = par
-    return out
 
 
-def tail_guarded(mod, fn, call):
-    """A release placed after an if/elif chain is reached only through the branches that do not leave the function;
-    it is guarded when each of those branches is entered under a containment test and the chain's else leaves."""
-    st = _stmt_of(mod, call)
-    par = mod.parent.get(st)
-    while isinstance(par, ast.For):
-        st, par = par, mod.parent.get(par)
-    lst = None
-    for field in ("body", "orelse"):
-        l2 = getattr(par, field, None)
-        if isinstance(l2, list) and st in l2:
-            lst = l2
-    if lst is None:
-        return False
-    from ..core import terminates
-
-    for prev in reversed(lst[: lst.index(st)]):
-        if not isinstance(prev, ast.If):
-            continue
-        node = prev
-        ok = True
-        seen_any = False
-        while True:
-            if not terminates(node.body):
-                seen_any = True
-                if not guard_means_contained(node.test, True):
-                    ok = False
-            if len(node.orelse) == 1 and isinstance(node.orelse[0], ast.If):
-                node = node.orelse[0]
-                continue
-            if not node.orelse or not terminates(node.orelse):
-                ok = False  # falling through without having found the object
-            break
-        if ok and seen_any:
-            return True
-    return False
 
 
-def guard_means_contained(t, pol):
-    """A dominating condition which says that the object was found in its registry / network."""
-    txt = norm(t)
-    if isinstance(t, ast.Compare) and len(t.ops) == 1:
-        op, rhs = t.ops[0], t.comparators[0]
-        if isinstance(op, ast.In) and pol and ("self._" in norm(rhs) or "lanelet_network" in norm(rhs)):
-            return True
-        if isinstance(op, ast.NotIn) and not pol and ("self._" in norm(rhs) or "lanelet_network" in norm(rhs)):
-            return True
-        if isinstance(rhs, ast.Constant) and rhs.value is None and "find_" in norm(t.left) and "_by_id" in norm(t.left):
-            if (isinstance(op, ast.Is) and not pol) or (isinstance(op, ast.IsNot) and pol):
-                return True
-    if pol and isinstance(t, ast.Call) and "_by_id" in txt and "find_" in txt:
-        return True
-    return False
 
 
 def run(repo, res, tier):
